@@ -192,12 +192,14 @@ func main() {
 	must(os.MkdirAll(genRoot, 0o755))
 
 	type job struct {
-		v    Variant
-		spec *schema.FileSpec
-		info *FileInfo
-		deps []*descriptorpb.FileDescriptorProto
-		run1 *miniprotoc.Result
+		v     Variant
+		spec  *schema.FileSpec
+		info  *FileInfo
+		deps  []*descriptorpb.FileDescriptorProto
+		run1  *miniprotoc.Result
+		depth int // 1 = imports no corpus file; n = longest chain of corpus imports has n files
 	}
+	maxDepth := 1
 	var jobsList []*job
 	set := &descriptorpb.FileDescriptorSet{}
 	for _, v := range variants() {
@@ -239,7 +241,25 @@ func main() {
 				os.Exit(2)
 			}
 			set.File = append(set.File, spec.FD)
-			jobsList = append(jobsList, &job{v: v, spec: spec, info: info, deps: deps})
+			var depthOf func(name string) int
+			depthOf = func(name string) int {
+				d := 1
+				for _, other := range specs {
+					if other.Name == name {
+						for _, imp := range other.Imports {
+							if x := depthOf(imp) + 1; x > d {
+								d = x
+							}
+						}
+					}
+				}
+				return d
+			}
+			jb := &job{v: v, spec: spec, info: info, deps: deps, depth: depthOf(spec.Name)}
+			if jb.depth > maxDepth {
+				maxDepth = jb.depth
+			}
+			jobsList = append(jobsList, jb)
 		}
 	}
 
@@ -251,12 +271,12 @@ func main() {
 	}
 
 	// pass 1: message types + first fast-marshal run
-	wave := 0 // 0 = every job; 1 = files without corpus imports; 2 = files that import other corpus files
+	wave := 0 // 0 = every job; n = files whose longest chain of corpus imports has n files
 	runAll := func(fn func(j *job)) {
 		var wg sync.WaitGroup
 		sem := make(chan struct{}, *jobs)
 		for _, j := range jobsList {
-			if wave == 1 && len(j.spec.Imports) > 0 || wave == 2 && len(j.spec.Imports) == 0 {
+			if wave != 0 && j.depth != wave {
 				continue
 			}
 			wg.Add(1)
@@ -429,10 +449,9 @@ func main() {
 		j.info.Usable = true
 	}
 	// an importer is compiled after the packages it imports have their final set of files
-	wave = 1
-	runAll(withFM)
-	wave = 2
-	runAll(withFM)
+	for wave = 1; wave <= maxDepth; wave++ {
+		runAll(withFM)
+	}
 	wave = 0
 
 	// manifest, descriptor set, blank imports
